@@ -17,3 +17,6 @@ def run(rep: Report, repo: Repo, tier: str) -> None:
     fsrules.rule_no_set_order(rep, repo, "C17-R4")
     fsrules.rule_no_location_as_pattern(rep, repo, "C17-R5")
     fsrules.rule_walk_root_absolute(rep, repo, "C17-R6")
+    # removing from a list while iterating it skips the neighbour of each removed entry: which entries survive depends on the
+    # order of the directory listing
+    fsrules.rule_no_mutation_while_iterating(rep, repo, "C17-R7")
